@@ -54,12 +54,11 @@ inductive Pred
 
 def isHexDigit (c : Nat) : Bool := (48 ≤ c && c ≤ 57) || (65 ≤ c && c ≤ 70) || (97 ≤ c && c ≤ 102)
 
-/-- `reHexcolor`: `^#(?:[0-9a-fA-F]{3}|[0-9a-fA-F]{6})$` (`$` also matches before a final newline) -/
+/-- `reHexcolor`: `^#(?:[0-9a-fA-F]{3}|[0-9a-fA-F]{6})\Z` (the end of the text: `Gen.hexColorStrictEnd`, an obligation
+of C01/C02; with `$` a HASH ending in a newline - `#abc\a ` - was taken for a colour and `int('', 16)` raised) -/
 def isHexColor (v : Text) : Bool :=
   match v with
-  | 35 :: ds =>
-    let ds := if ds.getLast? == some 10 then ds.dropLast else ds
-    (ds.length == 3 || ds.length == 6) && ds.all isHexDigit
+  | 35 :: ds => (ds.length == 3 || ds.length == 6) && ds.all isHexDigit
   | _ => false
 
 def Pred.eval : Pred → Tok → Bool
